@@ -22,11 +22,12 @@ class Outcome(object):
                the property's rule (distinct non-trivial plans are counted);
   classes    - iterable of class labels for the histogram.
   """
-  __slots__ = ('nontrivial', 'classes')
+  __slots__ = ('nontrivial', 'classes', 'counts')
 
-  def __init__(self, nontrivial=None, classes=()):
+  def __init__(self, nontrivial=None, classes=(), counts=None):
     self.nontrivial = nontrivial
     self.classes = tuple(classes)
+    self.counts = counts or {}
 
 
 class Recorder(object):
@@ -54,6 +55,8 @@ class Recorder(object):
       outcome = Outcome()
     for c in outcome.classes:
       self.classes[c] += 1
+    for k, v in outcome.counts.items():
+      self.extra[k] = self.extra.get(k, 0) + v
     if outcome.nontrivial is not None:
       self.nontrivial_cases += 1
       # distinct = distinct plans (cases); the reason goes to the samples
